@@ -17,18 +17,24 @@ def _allowed(res):
 
 # ---------------------------------------------------------------- engine oracles
 
-def _hang(impl):
+CALL_BUDGET = 4000      # harness/drive/engrun.go callBudget
+
+
+def _hang(impl, m=None):
     for k in ("res", "cres", "fres"):
         if impl.get(k, "").startswith("hang"):
             return ("check-hang", f"the check did not return within the watchdog time ({k})")
+    if "x_over" in impl and m is not None and m.get("calls", "").isdigit() and int(m["calls"]) <= CALL_BUDGET // 2:
+        return ("check-unbounded", f"the check issued more than {CALL_BUDGET} storage operations (stopped by the harness); "
+                                   f"the model needs {m['calls']}")
     return None
 
 
 def oracle_c01(cid, impl, m):
     """Check(C,m,T,q) = RefSem when limits are not binding (read off the model),
     no error, and (strict mode) the store conforms to the declared types."""
-    if _hang(impl):
-        return _hang(impl)
+    if _hang(impl, m):
+        return _hang(impl, m)
     if "res" not in m or m.get("ref") in (None, "bad"):
         return None
     if m.get("lim") != "0" or not m["res"].endswith("/none"):
@@ -47,8 +53,8 @@ def oracle_c01(cid, impl, m):
 def oracle_c02(cid, impl, m):
     """Fail closed: allowed under any limits implies allowed by the unbounded semantics. Clamp: the request
     answers as the same request (request depth 0) against a fresh engine whose global limit is the effective depth."""
-    if _hang(impl):
-        return _hang(impl)
+    if _hang(impl, m):
+        return _hang(impl, m)
     if "fres" in impl and impl.get("res") != impl["fres"]:
         return ("c02-clamp", f"request answered {impl.get('res')}, the same request against a fresh server whose global limit is the "
                              f"effective depth answers {impl['fres']}")
@@ -80,8 +86,8 @@ def oracle_c03(cid, impl, m):
     timeout, closed connection): an error, or the fault-free answer; never allowed when
     the fault-free answer is denied; an answer with an error is never allowed. Judged for
     the sequential and (cres) the real concurrent checkgroup."""
-    if _hang(impl):
-        return _hang(impl)
+    if _hang(impl, m):
+        return _hang(impl, m)
     if "res" not in m or "res0" not in m:
         return None
     for key in ("res", "cres"):
@@ -102,8 +108,8 @@ def oracle_c03(cid, impl, m):
 def oracle_c11(cid, impl, m):
     """An OPL document accepted by the real parser/type checker, a store that conforms
     to the declared types and a query on a declared relation: no schema error."""
-    if _hang(impl):
-        return _hang(impl)
+    if _hang(impl, m):
+        return _hang(impl, m)
     if "res" not in m or impl.get("opl") != "1":
         return None
     if m.get("conf") != "1" or m.get("qdecl") != "1":
@@ -142,8 +148,8 @@ def oracle_c15_life(cid, impl, m):
 def oracle_c15_wide(cid, impl, m):
     """Very wide nodes: the check returns, after the number of storage operations the model predicts (the
     correspondence: calls)."""
-    if _hang(impl):
-        return _hang(impl)
+    if _hang(impl, m):
+        return _hang(impl, m)
     if "res" not in impl:
         return None
     return True
